@@ -140,8 +140,6 @@ Qed.
 
 (* ---- forgetting what the parser does not read ---- *)
 Definition forget (t : tok) : tok := if tk_eqb (tk t) IDENTIFIER then name_tok (ttext t) else mk (tk t).
-Lemma tk_eqb_true a b : tk_eqb a b = true -> a = b.
-Proof. destruct a, b; cbn; intros H; try reflexivity; discriminate H. Qed.
 Lemma forget_kind t : tk (forget t) = tk t.
 Proof. unfold forget. destruct (tk_eqb (tk t) IDENTIFIER) eqn:E; [apply tk_eqb_true in E; rewrite E; reflexivity|reflexivity]. Qed.
 
